@@ -23,6 +23,9 @@ const (
 	asmT4  = 10 * time.Second
 )
 
+// asmHook: the harness export of the real assembler compiled against this tree.
+func asmHook() bool { return secs1.VC17Hook }
+
 type asmConfig struct {
 	Equip     bool  `json:"equip"`      // role of the RECEIVER under test
 	SpacingMs int   `json:"spacing_ms"` // virtual time between consecutive block arrivals
